@@ -617,6 +617,9 @@ struct CompressedBlob {
     compression_ratio: f32,
     /// Entropy encoding algorithm used (if any)
     entropy_algorithm: EntropyAlgorithm,
+    /// Length of the dictionary-compressed data that was fed to the entropy stage
+    /// (what the entropy decoder has to reproduce; `original_size` is the size of the blob itself)
+    entropy_input_size: usize,
 }
 
 /// Main DictZipBlobStore implementation
@@ -1169,7 +1172,7 @@ impl BlobStore for DictZipBlobStore {
         // Step 1: Decode entropy encoding (if any)
         let dict_compressed = self.decode_entropy(
             &blob.compressed_data,
-            blob.original_size,
+            blob.entropy_input_size,
             blob.entropy_algorithm
         )?;
 
@@ -1211,6 +1214,7 @@ impl BlobStore for DictZipBlobStore {
             let mut compressor_copy = (*self.compressor).clone();
             let _compression_stats = compressor_copy.compress(data, &mut dict_compressed)
                 .map_err(|e| ZiporaError::invalid_data(&format!("Compression failed: {}", e)))?;
+            let entropy_input_size = dict_compressed.len();
 
             // Step 2: Apply entropy encoding (if configured)
             let (final_compressed, entropy_algorithm) = if self.config.entropy_algorithm != EntropyAlgorithm::None {
@@ -1241,6 +1245,7 @@ impl BlobStore for DictZipBlobStore {
                     is_compressed: true,
                     compression_ratio,
                     entropy_algorithm,
+                    entropy_input_size,
                 }
             } else {
                 // Store uncompressed if compression doesn't help
@@ -1250,6 +1255,7 @@ impl BlobStore for DictZipBlobStore {
                     is_compressed: false,
                     compression_ratio: 1.0,
                     entropy_algorithm: EntropyAlgorithm::None,
+                    entropy_input_size: original_size,
                 }
             }
         } else {
@@ -1260,6 +1266,7 @@ impl BlobStore for DictZipBlobStore {
                 is_compressed: false,
                 compression_ratio: 1.0,
                 entropy_algorithm: EntropyAlgorithm::None,
+                entropy_input_size: original_size,
             }
         };
 
